@@ -4,4 +4,5 @@ CONSTANTS MaxOps = 4
 INVARIANT Contiguous
 INVARIANT CitationsTrackItems
 INVARIANT NoDanglingUnlessRemoved
+INVARIANT ReplacedCitationsFollow
 CHECK_DEADLOCK FALSE
